@@ -53,6 +53,13 @@ PROPS = {
                 trusted=["SHA-256 treated as an arbitrary function H in theorems; 'never delivered' rests on the 48-bit MAC assumption"]),
     "C08": dict(lean=["Mav.Props.C08"], groups=[("C08", sizes(150, 4000))],
                 trusted=["forwarding chain = composition of the reader and writer models (Driver hopChain); Node.FixFrame model in Mav/Model/Writer.lean"]),
+    "C10": dict(lean=["Mav.Props.C10"], groups=[("C10", sizes(60, 3000))],
+                trusted=["Go channel/select/goroutine semantics as modelled by the labelled transition system Mav/Model/Node.lean (one step per rendezvous); scheduler fairness"],
+                partial=["event sequences are observed on real runs (custom in-memory transports, TCP) and judged by the executable spec Spec.evLegal; the transition-system theorems are about the model"]),
+    "C11": dict(lean=["Mav.Props.C11"], groups=[("C11", sizes(60, 3000))],
+                trusted=["Go channel/select/goroutine semantics as modelled by Mav/Model/Node.lean; in-memory transports of the harness record write calls faithfully"]),
+    "C13": dict(lean=["Mav.Props.C13"], groups=[("C13", sizes(30, 1500))],
+                trusted=["Go channel/select/goroutine semantics as modelled by Mav/Model/Node.lean"]),
     "C17": dict(lean=["Mav.Props.C17"], groups=[("C17", sizes(1, 1))], table_crosscheck=True, preamble=dialects_preamble,
                 trusted=["published CRC_EXTRA values are represented by the spec recipe (serialization guide) and the values pinned in the repository; the C library's tables are not available offline"]),
     "C19": dict(lean=["Mav.Props.C19"], groups=[("C19", sizes(1, 1))], preamble=enums_preamble,
